@@ -715,6 +715,28 @@ func (ev *SpecEnv) callExpr(x *ast.CallExpr) (Val, types.Type) {
 			ev.fail("unknown ghost %s", n)
 		}
 		return Scalar{g}, nil
+	case "all":
+		// all(x, body): unbounded universal quantifier over the integers (axioms)
+		if argc < 2 {
+			ev.fail("all(x..., body)")
+		}
+		sub := *ev
+		sub.vars = map[string]Val{}
+		for k, v := range ev.vars {
+			sub.vars[k] = v
+		}
+		var binders []string
+		for _, a := range x.Args[:argc-1] {
+			id, ok := a.(*ast.Ident)
+			if !ok {
+				ev.fail("all: binder must be an identifier")
+			}
+			qn := "ax_" + id.Name
+			sub.vars[id.Name] = Scalar{Sym(qn, IntSort)}
+			binders = append(binders, fmt.Sprintf("(%s Int)", qn))
+		}
+		body := sub.termBool(x.Args[argc-1])
+		return Scalar{App("forall ("+strings.Join(binders, " ")+")", BoolSort, body)}, nil
 	case "forall", "exists":
 		// forall(i, lo, hi, body): lo <= i < hi
 		need(4)
@@ -764,6 +786,22 @@ func (ev *SpecEnv) callExpr(x *ast.CallExpr) (Val, types.Type) {
 			ev.fail("conversion %s of untyped spec value", name)
 		}
 		return ev.ex.convert(ev.st, v, ft, t), t
+	}
+	// uninterpreted functions
+	if uf, ok := ev.ex.P.CS.UFuns[name]; ok {
+		if len(uf.Args) != argc {
+			ev.fail("ufun %s expects %d args", name, len(uf.Args))
+		}
+		var args []*Term
+		for _, a := range x.Args {
+			args = append(args, ev.intTerm(a))
+		}
+		rs := IntSort
+		if uf.Res == "Bool" {
+			rs = BoolSort
+		}
+		ev.ex.useUFun(uf)
+		return Scalar{App(name, rs, args...)}, nil
 	}
 	// user-defined spec functions
 	if sf, ok := ev.ex.P.CS.SpecFuns[name]; ok {
